@@ -609,6 +609,10 @@ def check(ctx, rep):
              "the directory handler cache an empty listing under the directory's own cache file: later requests would depend on it)", floor=3)
     rep.rule("R03g", "status lines echo request text only after line breaks were collapsed", floor=2)
     rep.rule("R03h", "a Gopher+ `+N` status line announces the number of bytes that follow: transforming handlers leave the size unset, menus use the unknown-length marker", floor=5)
+    rep.rule("R03k", "a value parsed from request text into a date or number object is ordered (<, <=, >, >=) against another value only under a "
+             "guard for TypeError: such parsers return objects that do not compare with every other one (a date with and without a time zone), and "
+             "the error would leave handle() without a response", floor=0)
+    parsed_value_obligations(ctx, rep, "R03k")
     rep.rule("R03i", "partial operations on text read from content files (link files, gophermaps, sidecars): index, unpack, int() are guarded", floor=4)
     rep.rule("R03e", "mailbox constructors (fail with mailbox.Error, not OSError) are guarded or converted", floor=2)
     rep.assume("served content (gophermaps, link files, mailboxes, archives) is well formed: partial operations on file content are not tracked")
@@ -1129,3 +1133,50 @@ def _existence_checked(ctx, prog, H) -> bool:
         if not ok:
             return False
     return True
+
+
+# ---------------------------------------------------------------------------------------------- R03k
+_MIXED_PARSERS = ("parsedate_to_datetime", "strptime", "fromisoformat", "parsedate", "parsedate_tz", "mktime_tz", "Decimal", "Fraction")
+
+
+def parsed_value_obligations(ctx, rep, rule="R03k"):
+    """Ordering comparisons whose operand comes from a date / number parser applied to something that is not a constant."""
+    prog = ctx.prog
+    n = 0
+    for f in prog.all_functions():
+        if not (f.module.name.startswith("pygopherd.protocols") or f.module.name.startswith("pygopherd.handlers") or f.module.name == "pygopherd.server"):
+            continue
+        assigns = {}
+        for a in ast.walk(f.node):
+            if isinstance(a, ast.Assign) and len(a.targets) == 1 and isinstance(a.targets[0], ast.Name):
+                assigns.setdefault(a.targets[0].id, []).append(a.value)
+
+        def parsed(e, depth=0):
+            if depth > 3:
+                return None
+            if isinstance(e, ast.Call):
+                d = dotted(e.func) or ""
+                if d.split(".")[-1] in _MIXED_PARSERS and e.args and not all(isinstance(a, ast.Constant) for a in e.args):
+                    return d
+            if isinstance(e, ast.Name):
+                for v in assigns.get(e.id, []):
+                    got = parsed(v, depth + 1)
+                    if got:
+                        return got
+            return None
+
+        for c in ast.walk(f.node):
+            if not (isinstance(c, ast.Compare) and any(isinstance(o, (ast.Lt, ast.LtE, ast.Gt, ast.GtE)) for o in c.ops)):
+                continue
+            src = next((parsed(x) for x in [c.left] + list(c.comparators) if parsed(x)), None)
+            if not src:
+                continue
+            n += 1
+            guarded = any(catches(h, "TypeError") for tr in enclosing_tries(f.node, c) for h in tr.handlers
+                          if any(x is c for b_ in tr.body for x in ast.walk(b_)))
+            rep.add(rule, f"{f.qualname}: {norm(c)[:60]}", guarded, ctx.where(f, c),
+                    "" if guarded else f"`{norm(c)[:50]}` orders a value from {src}() against another object outside any guard for TypeError: for some request texts "
+                    "the parser returns an object of a kind that does not compare (a date without time zone against one with), the error is not one the "
+                    "protocol turns into a reply, and the client gets no response", key=f"{rule}|{f.qualname}|{norm(c)[:60]}")
+    if not n:
+        rep.ok(rule, "no ordering comparison on a parsed request value", "pygopherd/protocols", "", key=f"{rule}|none", nontrivial=False)
